@@ -244,6 +244,35 @@ func exBusy(a kv) string {
 	return fmt.Sprintf("run=%s marker=%s", run, exB01(exCountMarker(exExists(marker))))
 }
 
+// exRel: the configured executable is a RELATIVE path with a directory component. The file the permission check looks at
+// and the file that is started must be the same one: next to the checked (root-owned) script sits a world-writable script
+// of another owner at the place the relative path denotes when it is resolved against another directory.
+func exRel(a kv) string {
+	dir := execCaseDir()
+	defer os.RemoveAll(dir)
+	wd, _ := os.Getwd()
+	defer func() { _ = os.Chdir(wd) }()
+	mk := func(rel, marker string, uid int, mode os.FileMode) {
+		p := filepath.Join(dir, rel)
+		_ = os.MkdirAll(filepath.Dir(p), 0o755)
+		body := "#!/bin/sh\necho x >> " + filepath.Join(dir, marker) + "\necho 7\n"
+		if err := os.WriteFile(p, []byte(body), mode); err != nil {
+			panic(err)
+		}
+		exSetStat(p, uid, uid, mode)
+	}
+	mk("bin/probe.sh", "good", 0, 0o755)
+	for _, other := range []string{"bin/bin/probe.sh", "probe.sh", "bin/bin/bin/probe.sh"} {
+		mk(other, "bad", 1000, 0o777)
+	}
+	if err := os.Chdir(dir); err != nil {
+		panic(err)
+	}
+	run := exRunSafe(a.str("path", "bin/probe.sh"), nil, 2*time.Second)
+	time.Sleep(10 * time.Millisecond)
+	return fmt.Sprintf("run=%s good=%s bad=%s", run, exB01(exCountMarker(exExists(filepath.Join(dir, "good")))), exB01(exExists(filepath.Join(dir, "bad"))))
+}
+
 func exDangling(a kv) string {
 	dir := execCaseDir()
 	defer os.RemoveAll(dir)
@@ -522,7 +551,8 @@ func exUser(a kv) (res string) {
 		}
 		return "res=v:" + fmtF(float64(v))
 	case "fanset":
-		if err := fan.SetPwm(100); err != nil {
+		// any int may arrive here: the controller hands back what getPwm printed at start-up (restorePwmEnabled)
+		if err := fan.SetPwm(a.int("v", 100)); err != nil {
 			return "res=err"
 		}
 		return "res=ok"
@@ -604,6 +634,8 @@ func init() {
 			return exRun(a)
 		case "ex.busy":
 			return exBusy(a)
+		case "ex.rel":
+			return exRel(a)
 		case "ex.user":
 			return exUser(a)
 		case "ex.userpair":
